@@ -18,7 +18,53 @@ def base_quads(base, v):
     return [v.abs_triple(q) + [v.gabs(q[3])] for q in cg.quads()]
 
 
+def replay_simple(cfg, events):
+    """the wrapper over a store that is not context aware (SimpleMemory): one graph, every call through Graph"""
+    from rdflib.plugins.stores.memory import SimpleMemory
+    v = Vocab(cfg.get("vocab", "plain"))
+    base = SimpleMemory()
+    wrappers = {}
+    evs = []
+    G = "g1"
+
+    def gr(w):
+        if w not in wrappers:
+            wrappers[w] = AuditableStore(base)
+        return Graph(store=wrappers[w], identifier=v.gid(G))
+
+    for i, e in enumerate(events):
+        e = dict(e)
+        op = e["op"]
+        try:
+            if op == "init":
+                for q in e["quads"]:
+                    Graph(store=base, identifier=v.gid(G)).add(v.triple(q))
+            elif op == "tx_add":
+                gr(e["w"]).add(v.triple(e["t"]))
+            elif op == "tx_addN":
+                gr(e["w"]).addN([v.triple(q) + (gr(e["w"]),) for q in e["quads"]])
+            elif op == "tx_remove":
+                pat = v.triple(e["pat"])
+                if e.get("how") == "set" and pat[0] is not None and pat[1] is not None:
+                    gr(e["w"]).remove((pat[0], pat[1], None))
+                else:
+                    gr(e["w"]).remove(pat)
+            elif op == "commit":
+                gr(e["w"]).commit()
+            elif op == "rollback":
+                gr(e["w"]).rollback()
+            else:
+                raise ValueError(op)
+        except Exception as ex:  # noqa: BLE001
+            e["raise"] = type(ex).__name__
+        e["base"] = [v.abs_triple(t) + [G] for t in Graph(store=base, identifier=v.gid(G))]
+        evs.append(e)
+    return {"tid": 0, "cfg": {"vocab": cfg.get("vocab", "plain")}, "ev": evs}
+
+
 def replay(cfg, events):
+    if cfg.get("store") == "SimpleMemory":
+        return replay_simple(cfg, events)
     v = Vocab(cfg.get("vocab", "plain"))
     base = Memory()
     wrappers = {}
